@@ -17,11 +17,11 @@ import (
 	"reflect"
 	"runtime"
 	"sort"
-	"strconv"
 	"strings"
 	"sync"
 	"sync/atomic"
 	"time"
+	"unsafe"
 )
 
 // Config selects every schedule-level knob of one run.
@@ -45,6 +45,7 @@ type G struct {
 	Site    string
 	release chan bool // true = run, false = die
 	prio    int
+	run     int64
 }
 
 type sleeper struct {
@@ -61,7 +62,7 @@ var (
 	rng       *rand.Rand
 	tapePos   int
 	recorded  []int
-	byGoid    map[uint64]*G
+	runSeq    int64
 	runnable  []*G
 	blocked   map[interface{}][]*G
 	sleepers  []sleeper
@@ -82,6 +83,8 @@ var (
 
 	// Progress is bumped at every scheduling event; the real-time watchdog reads it.
 	Progress atomic.Int64
+	// RunSeq numbers the runs of this process (the watchdog times each run on the real clock).
+	RunSeq atomic.Int64
 	// CurrentSite names the site of the goroutine released last (for hang reports).
 	CurrentSite atomic.Value
 )
@@ -97,7 +100,8 @@ func Reset(c Config) {
 	rng = rand.New(rand.NewSource(c.Seed))
 	tapePos = 0
 	recorded = nil
-	byGoid = map[uint64]*G{}
+	runSeq++
+	RunSeq.Store(runSeq)
 	runnable = nil
 	blocked = map[interface{}][]*G{}
 	sleepers = nil
@@ -214,30 +218,32 @@ func Draw(n int) int {
 	return decide(n, func() int { return rng.Intn(n) })
 }
 
-func goid() uint64 {
-	var buf [64]byte
-	n := runtime.Stack(buf[:], false)
-	s := buf[len("goroutine "):n]
-	i := 0
-	for i < len(s) && s[i] != ' ' {
-		i++
-	}
-	id, _ := strconv.ParseUint(string(s[:i]), 10, 64)
-	return id
-}
+// The descriptor of the current goroutine is kept in the goroutine's profiler-label slot
+// (runtime/pprof's own accessors, reached by linkname): constant time, no shared map, and
+// invisible to the race detector.  A goroutine inherits the slot of its creator, so the first
+// scheduling point of every new goroutine (Enter for instrumented go statements, the handler
+// entry yield for goroutines created by the dispatcher) always allocates a fresh descriptor.
 
-// cur returns the descriptor of the calling goroutine, creating it (unnamed) on first use.
+//go:linkname runtime_setProfLabel runtime/pprof.runtime_setProfLabel
+func runtime_setProfLabel(labels unsafe.Pointer)
+
+//go:linkname runtime_getProfLabel runtime/pprof.runtime_getProfLabel
+func runtime_getProfLabel() unsafe.Pointer
+
+// cur returns the descriptor of the calling goroutine; fresh forces a new one.
 //
 //go:norace
-func cur(key string) *G {
-	id := goid()
-	mu.Lock()
-	g := byGoid[id]
-	if g == nil {
-		g = &G{Key: key, release: make(chan bool)}
-		byGoid[id] = g
+func cur(key string, fresh bool) *G {
+	if !fresh {
+		if p := runtime_getProfLabel(); p != nil {
+			g := (*G)(p)
+			if g.run == RunSeq.Load() {
+				return g
+			}
+		}
 	}
-	mu.Unlock()
+	g := &G{Key: key, release: make(chan bool), run: RunSeq.Load()}
+	runtime_setProfLabel(unsafe.Pointer(g))
 	return g
 }
 
@@ -261,7 +267,8 @@ func YieldKey(site, key string) {
 		return
 	}
 	RaceOff()
-	g := cur(site + "#" + key)
+	fresh := strings.HasPrefix(site, "go@") || strings.HasPrefix(site, "enter:")
+	g := cur(site+"#"+key, fresh)
 	Progress.Add(1)
 	mu.Lock()
 	if dying {
@@ -289,10 +296,7 @@ func Exit() {
 		return
 	}
 	RaceOff()
-	id := goid()
-	mu.Lock()
-	delete(byGoid, id)
-	mu.Unlock()
+	runtime_setProfLabel(nil)
 	RaceOn()
 }
 
@@ -512,7 +516,7 @@ func Lock(m locker, site string) {
 	Yield("lock@" + site)
 	for !m.TryLock() {
 		RaceOff()
-		g := cur("")
+		g := cur("", false)
 		mu.Lock()
 		if dying {
 			mu.Unlock()
@@ -569,7 +573,7 @@ func RLock(m rlocker, site string) {
 	Yield("rlock@" + site)
 	for !m.TryRLock() {
 		RaceOff()
-		g := cur("")
+		g := cur("", false)
 		mu.Lock()
 		if dying {
 			mu.Unlock()
@@ -638,7 +642,7 @@ func Sleep(d time.Duration) {
 		return
 	}
 	RaceOff()
-	g := cur("sleep")
+	g := cur("sleep", false)
 	mu.Lock()
 	if dying {
 		mu.Unlock()
